@@ -231,6 +231,21 @@ _response_sock_one_way_get(struct qb_ipcc_connection * c)
 	return &c->response;
 }
 
+/*
+ * The request cannot go out now (flow control is on, the queue is full).
+ * That says nothing about the server being there: a server that was killed
+ * leaves flow control on and the queue full for ever.  Look at the sockets
+ * before telling the caller to try again.
+ */
+static int32_t
+_try_again_or_disconnected(struct qb_ipcc_connection * c)
+{
+	int32_t res = _check_connection_state_with(c, -EAGAIN,
+						   _response_sock_one_way_get(c),
+						   0, POLLIN);
+	return (res < 0) ? res : -EAGAIN;
+}
+
 ssize_t
 qb_ipcc_send(struct qb_ipcc_connection * c, const void *msg_ptr, size_t msg_len)
 {
@@ -248,7 +263,7 @@ qb_ipcc_send(struct qb_ipcc_connection * c, const void *msg_ptr, size_t msg_len)
 		if (res < 0) {
 			return res;
 		} else if (res > 0 && res <= c->fc_enable_max) {
-			return -EAGAIN;
+			return _try_again_or_disconnected(c);
 		} else {
 			/*
 			 * we can transmit
@@ -267,6 +282,9 @@ qb_ipcc_send(struct qb_ipcc_connection * c, const void *msg_ptr, size_t msg_len)
 		if (res2 != 1) {
 			res = res2;
 		}
+	}
+	if (res == -EAGAIN) {
+		return _try_again_or_disconnected(c);
 	}
 	return _check_connection_state(c, res);
 }
@@ -305,7 +323,7 @@ qb_ipcc_sendv(struct qb_ipcc_connection * c, const struct iovec * iov,
 		if (res < 0) {
 			return res;
 		} else if (res > 0 && res <= c->fc_enable_max) {
-			return -EAGAIN;
+			return _try_again_or_disconnected(c);
 		} else {
 			/*
 			 * we can transmit
@@ -325,6 +343,9 @@ qb_ipcc_sendv(struct qb_ipcc_connection * c, const struct iovec * iov,
 			res = res2;
 		}
 	}
+	if (res == -EAGAIN) {
+		return _try_again_or_disconnected(c);
+	}
 	return _check_connection_state(c, res);
 }
 
@@ -337,6 +358,11 @@ qb_ipcc_recv(struct qb_ipcc_connection * c, void *msg_ptr,
 
 	if (c == NULL) {
 		return -EINVAL;
+	}
+	if (!c->is_connected) {
+		/* what has arrived can still be had, nothing more will come */
+		res = c->funcs.recv(&c->response, msg_ptr, msg_len, 0);
+		return (res >= 0) ? res : -ENOTCONN;
 	}
 
 	res = c->funcs.recv(&c->response, msg_ptr, msg_len, ms_timeout);
@@ -374,7 +400,7 @@ qb_ipcc_sendv_recv(qb_ipcc_connection_t * c,
 		if (res < 0) {
 			return res;
 		} else if (res > 0 && res <= c->fc_enable_max) {
-			return -EAGAIN;
+			return _try_again_or_disconnected(c);
 		} else {
 			/*
 			 * we can transmit
